@@ -115,6 +115,16 @@ func Run(unlock, lock []byte, flags interp.Flags, c TxCtx, dbg interpreter.Debug
 
 // RunModel executes input idx of model m against the given spent output.
 func RunModel(m ref.Tx, idx int, lock []byte, amount uint64, flags interp.Flags, dbg interpreter.Debugger) (out Outcome) {
+	return RunModelOn(interpreter.NewEngine(), m, idx, lock, amount, flags, dbg)
+}
+
+// RunOn is Run on an engine the caller owns (and may have used before).
+func RunOn(eng interpreter.Engine, unlock, lock []byte, flags interp.Flags, c TxCtx, dbg interpreter.Debugger) (out Outcome) {
+	return RunModelOn(eng, c.Model(unlock, lock), 0, lock, c.Amount, flags, dbg)
+}
+
+// RunModelOn is RunModel on an engine the caller owns (and may have used before).
+func RunModelOn(eng interpreter.Engine, m ref.Tx, idx int, lock []byte, amount uint64, flags interp.Flags, dbg interpreter.Debugger) (out Outcome) {
 	tx := ref.ToLib(m)
 	prev := &bt.Output{Satoshis: amount, LockingScript: bscript.NewFromBytes(append([]byte{}, lock...))}
 	opts := []interpreter.ExecutionOptionFunc{interpreter.WithTx(tx, idx, prev), interpreter.WithFlags(scriptflag.Flag(flags))}
@@ -136,7 +146,7 @@ func RunModel(m ref.Tx, idx int, lock []byte, amount uint64, flags interp.Flags,
 			out.Steps, out.Recorder = r.Steps, &r.Recorder
 		}
 	}()
-	out.Err = interpreter.NewEngine().Execute(opts...)
+	out.Err = eng.Execute(opts...)
 	return out
 }
 
